@@ -2,12 +2,14 @@
    (gen/Src3d.v) through the simulations of SrcTie3Reader.v: reading a file to its end with the
    translated get_file / read (C01, C10), and totality of the translated read on any tame
    stream is in SrcTie3ReaderTotal.v (C08). *)
+From MLA Require Import Limit.
 From MLA Require Import Base Stream Blocks Reader RoundTripBlocks RoundTripReader SrcTie3Reader.
 From MLAGen Require Src3d.
 From Coq Require Import ZifyBool ZifyNat ZifyN.
 Open Scope N_scope.
 
 Section RT.
+  Context {LIM : Limit}.
   Variable S : Stream.
   Variables FNMAX T_START T_CONTENT T_EOA T_EOF : N.
   Variable site_index : N.
